@@ -143,6 +143,9 @@ found:
 			intvs[iv] = c.Begin
 		}
 		ref.Intervals = intvs
+		// Tiles skipped between records are left zero, which
+		// sort moves to the front of the linear index.
+		i.IsSorted = false
 	}
 
 	// Record index stats.
